@@ -166,7 +166,9 @@ def confirm(pid, path):
         p = subprocess.run([sys.executable, '-m', 'mc.run', pid, '--replay', path], cwd=ROOT,
                            capture_output=True, text=True, timeout=300)
         outs.append((p.returncode, [l for l in p.stdout.splitlines() if l.startswith('observed:')]))
-    return outs[0][0] == 1 and outs[1][0] == 1 and outs[0][1] == outs[1][1], outs
+    # the case must deviate in both fresh runs; the deviating value itself may differ when the code under test returns
+    # uninitialised memory (that is still a reproduced violation)
+    return outs[0][0] == 1 and outs[1][0] == 1, outs
 
 
 def validate_evidence(ev):
@@ -262,7 +264,7 @@ def main(argv):
         path = write_replay(pid, v)
         ok, outs = confirm(pid, path)
         if not ok:
-            print('harness error: candidate violation did not reproduce identically in two fresh runs: %s %r'
+            print('harness error: candidate violation did not reproduce in two fresh runs: %s %r'
                   % (path, outs))
             status = max(status, 2)
             continue
